@@ -145,6 +145,8 @@ package vm
 //@ ensures [C02] firederr: fired ==> realErr(runInfo.err)
 //@ ensures [C08] simple: (typeis(old(runInfo.stmt), "*ast.VarStmt") || typeis(old(runInfo.stmt), "*ast.LetsStmt") || typeis(old(runInfo.stmt), "*ast.ExprStmt")) ==> runInfo.err != ErrBreak && runInfo.err != ErrContinue && runInfo.err != ErrReturn
 //@ ensures [C02] stop: old(fired) ==> runInfo.err == ErrInterrupt && runInfo.defers == old(runInfo.defers)
+// C09: a throw statement always leaves an error (whatever the thrown value), so evaluation is aborted up to the nearest try
+//@ ensures [C09] throws: typeis(old(runInfo.stmt), "*ast.ThrowStmt") ==> runInfo.err != nil
 
 //@ func (*runInfoStruct).runStmtsStmt
 //@ props C04 C08 C02
@@ -153,6 +155,11 @@ package vm
 //@ loop 0 invariant actInv(runInfo) && runInfo.err == nil
 //@ ensures [C08 C09] stops: forall k int :: 0 <= k && k < ncalls() - 1 ==> res(k) == nil
 //@ ensures [C08] order: forall k int :: 0 <= k && k < ncalls() ==> calleeIs(k, "runSingleStmt") && arg(k) == stmts.Stmts[k]
+//@ ensures [C08 C09] errpass: ncalls() >= 1 && res(ncalls()-1) != nil ==> runInfo.err == res(ncalls()-1) && runInfo.rv == res2(ncalls()-1)
+//@ ensures [C08] all: runInfo.err == nil ==> ncalls() == len(stmts.Stmts)
+//@ ensures [C08] brk: runInfo.err == ErrBreak && (ncalls() == 0 || res(ncalls()-1) == nil) ==> ncalls() < len(stmts.Stmts) && typeis(stmts.Stmts[ncalls()], "*ast.BreakStmt")
+//@ ensures [C08] cont: runInfo.err == ErrContinue && (ncalls() == 0 || res(ncalls()-1) == nil) ==> ncalls() < len(stmts.Stmts) && typeis(stmts.Stmts[ncalls()], "*ast.ContinueStmt")
+//@ ensures [C08] ret: runInfo.err == ErrReturn && ncalls() >= 1 && res(ncalls()-1) == nil ==> typeis(stmts.Stmts[ncalls()-1], "*ast.ReturnStmt") && runInfo.rv == res2(ncalls()-1)
 //@ loop 0 invariant ncalls() == rangeindex + 1 && rangeindex < len(stmts.Stmts) && (forall k int :: 0 <= k && k < ncalls() ==> res(k) == nil && calleeIs(k, "runSingleStmt") && arg(k) == stmts.Stmts[k])
 
 //@ func (*runInfoStruct).runIfStmt
@@ -160,11 +167,37 @@ package vm
 //@ like template.evalStmt
 //@ requires stmt != nil
 //@ loop 0 invariant actInvE(runInfo) && env == old(runInfo.env) && runInfo.err == nil
+// C08: exactly the first branch whose condition is truthy runs (else the else branch), and its outcome - value, error,
+// break/continue/return signal - is the outcome of the if statement. Over the activation trace: calls 0..n-2 are
+// condition evaluations (in source order) that succeeded; the last call is either a condition or the one body.
+//@ ensures [C08] passes: ncalls() >= 1 && calleeIs(ncalls()-1, "runSingleStmt") ==> runInfo.err == res(ncalls()-1) && runInfo.rv == res2(ncalls()-1)
+//@ ensures [C08] allconds: forall k int :: 0 <= k && k < ncalls() - 1 ==> calleeIs(k, "invokeExpr") && res(k) == nil
+//@ ensures [C08] falsy: forall k int :: 0 <= k && k < ncalls() - 2 ==> !truthyV(res2(k))
+//@ ensures [C08] conds: ncalls() >= 1 && calleeIs(0, "invokeExpr") && arg(0) == stmt.If && (forall k int :: 1 <= k && k < ncalls() && calleeIs(k, "invokeExpr") ==> k - 1 < len(stmt.ElseIf) && arg(k) == as(stmt.ElseIf[k-1], "*ast.IfStmt").If)
+//@ ensures [C08] branch: ncalls() >= 2 && calleeIs(ncalls()-1, "runSingleStmt") ==> ite(truthyV(res2(ncalls()-2)), arg(ncalls()-1) == ite(ncalls() == 2, stmt.Then, as(stmt.ElseIf[ncalls()-3], "*ast.IfStmt").Then), ncalls() - 2 == len(stmt.ElseIf) && arg(ncalls()-1) == stmt.Else)
+//@ ensures [C08] taken: ncalls() >= 1 && calleeIs(ncalls()-1, "invokeExpr") ==> res(ncalls()-1) != nil || (!truthyV(res2(ncalls()-1)) && ncalls() - 1 == len(stmt.ElseIf) && stmt.Else == nil)
+//@ ensures [C08] takenprev: ncalls() >= 2 && calleeIs(ncalls()-1, "invokeExpr") ==> !truthyV(res2(ncalls()-2))
+//@ loop 0 invariant ncalls() == rangeindex + 2 && rangeindex < len(stmt.ElseIf) && arg(0) == stmt.If && (forall k int :: 0 <= k && k < ncalls() ==> calleeIs(k, "invokeExpr") && res(k) == nil && !truthyV(res2(k))) && (forall k int :: 1 <= k && k < ncalls() ==> arg(k) == as(stmt.ElseIf[k-1], "*ast.IfStmt").If)
+// C04: every branch body (and every else-if condition) runs in a fresh child of the statement's scope
+//@ callsite (*runInfoStruct).runSingleStmt * [C04] childscope: fresh(runInfo.env) && runInfo.env.parent == old(runInfo.env)
 
 //@ func (*runInfoStruct).runTryStmt
 //@ props C04 C08 C02 C09
 //@ like template.evalStmt
 //@ requires stmt != nil
+// C09: the try block runs first; catch runs exactly when the try block left an error (bound to the catch variable in
+// the statement's own fresh scope); finally runs after a try that succeeded or whose error was caught and handled; the
+// outcome of the statement is the outcome of the last block that ran. An interruption is never caught (C02).
+//@ ensures [C09] tryfirst: ncalls() >= 1 && ncalls() <= 3 && (forall k int :: 0 <= k && k < ncalls() ==> calleeIs(k, "runSingleStmt")) && arg(0) == stmt.Try
+//@ ensures [C09] outcome: runInfo.err == res(ncalls()-1) && runInfo.rv == res2(ncalls()-1)
+//@ ensures [C09] ok: res(0) == nil ==> ite(stmt.Finally == nil, ncalls() == 1, ncalls() == 2 && arg(1) == stmt.Finally)
+//@ ensures [C09 C02] interrupt: res(0) == ErrInterrupt ==> ncalls() == 1
+//@ ensures [C09] caught: res(0) != nil && res(0) != ErrInterrupt && notSentinel(res(0)) ==> ncalls() >= 2 && arg(1) == stmt.Catch && ite(res(1) != nil, ncalls() == 2, ite(stmt.Finally == nil, ncalls() == 2, ncalls() == 3 && arg(2) == stmt.Finally))
+//@ callsite (*Env).DefineValue * [C09 C04] catchvar: arg1 == stmt.Var && fresh(arg0) && arg0.parent == old(runInfo.env) && ncalls() == 1 && rvIface(arg2) == res(0)
+//@ callsite (*runInfoStruct).runSingleStmt * [C04] childscope: fresh(runInfo.env) && runInfo.env.parent == old(runInfo.env)
+// C08/C09: return, break and continue are not errors: they pass through a try statement untouched (no catch block
+// runs). KNOWN FINDING on the pinned tree: the catch block swallows them (try { return 1 } catch { } goes on).
+//@ ensures [C09 C08] signal: !notSentinel(res(0)) ==> ncalls() == 1
 
 //@ func (*runInfoStruct).runLoopStmt
 //@ props C04 C08 C02
@@ -176,11 +209,17 @@ package vm
 //@ ensures [C08] returns: lastBody(ErrReturn) ==> runInfo.err == ErrReturn && runInfo.rv == res2(ncalls()-1)
 //@ ensures [C08] breaks: lastBody(ErrBreak) ==> runInfo.err == nil && runInfo.rv == nilValue
 //@ loop 0 invariant allGoOn()
+// C04: the loop body runs in a fresh child of the scope of the loop statement
+//@ callsite (*runInfoStruct).runSingleStmt * [C04] childscope: fresh(runInfo.env) && runInfo.env.parent == old(runInfo.env)
 
 //@ func (*runInfoStruct).runForStmt
 //@ props C04 C08 C02
 //@ like template.loopStmt
 //@ requires stmt != nil
+// C04: the iterated value is evaluated, the loop variable defined and the body run in one fresh child of the statement's scope
+//@ callsite (*runInfoStruct).runForSliceStmt * [C04] childscope: fresh(runInfo.env) && runInfo.env.parent == old(runInfo.env)
+//@ callsite (*runInfoStruct).runForMapStmt * [C04] childscope: fresh(runInfo.env) && runInfo.env.parent == old(runInfo.env)
+//@ callsite (*runInfoStruct).runForChanStmt * [C04] childscope: fresh(runInfo.env) && runInfo.env.parent == old(runInfo.env)
 
 //@ func (*runInfoStruct).runForSliceStmt
 //@ props C04 C08 C02
@@ -192,6 +231,8 @@ package vm
 //@ ensures [C08] returns: lastBody(ErrReturn) ==> runInfo.err == ErrReturn && runInfo.rv == res2(ncalls()-1)
 //@ ensures [C08] breaks: lastBody(ErrBreak) ==> runInfo.err == nil && runInfo.rv == nilValue
 //@ loop 0 invariant allGoOn()
+// C04: the loop body runs in a fresh child of the scope of the loop statement
+//@ callsite (*runInfoStruct).runSingleStmt * [C04] samescope: runInfo.env == old(runInfo.env)
 
 //@ func (*runInfoStruct).runForMapStmt
 //@ props C04 C08 C02
@@ -203,6 +244,13 @@ package vm
 //@ ensures [C08] returns: lastBody(ErrReturn) ==> runInfo.err == ErrReturn && runInfo.rv == res2(ncalls()-1)
 //@ ensures [C08] breaks: lastBody(ErrBreak) ==> runInfo.err == nil && runInfo.rv == nilValue
 //@ loop 0 invariant allGoOn()
+// C04: the loop body runs in a fresh child of the scope of the loop statement
+//@ callsite (*runInfoStruct).runSingleStmt * [C04] samescope: runInfo.env == old(runInfo.env)
+// C08: every key the map reported is presented once, in the order MapKeys gave them; C01: those keys are hashable
+//@ loop 0 invariant [C01] keysok: forall k int :: 0 <= k && k < len(keys) ==> rvValid(keys[k]) && hashableKey(keys[k])
+//@ loop 0 invariant [C08] visited: ncalls() == i && 0 <= i && i <= len(keys)
+//@ callsite (*Env).DefineValue 0 [C08] kthkey: ncalls() == i && arg1 == stmt.Vars[0] && arg2 == keys[i]
+//@ ensures [C08] allkeys: runInfo.err == nil && !lastBody(ErrBreak) ==> ncalls() == len(keys)
 
 //@ func (*runInfoStruct).runForChanStmt
 //@ props C04 C08 C02
@@ -215,6 +263,8 @@ package vm
 //@ ensures [C08] returns: lastBody(ErrReturn) ==> runInfo.err == ErrReturn && runInfo.rv == res2(ncalls()-1)
 //@ ensures [C08] breaks: lastBody(ErrBreak) ==> runInfo.err == nil && runInfo.rv == nilValue
 //@ loop 0 invariant allGoOn()
+// C04: the loop body runs in a fresh child of the scope of the loop statement
+//@ callsite (*runInfoStruct).runSingleStmt * [C04] samescope: runInfo.env == old(runInfo.env)
 
 //@ func (*runInfoStruct).runCForStmt
 //@ props C04 C08 C02
@@ -226,6 +276,8 @@ package vm
 //@ ensures [C08] returns: ncalls() >= 2 && lastBody(ErrReturn) ==> runInfo.err == ErrReturn && runInfo.rv == res2(ncalls()-1)
 //@ ensures [C08] breaks: ncalls() >= 2 && lastBody(ErrBreak) ==> runInfo.err == nil && runInfo.rv == nilValue
 //@ loop 0 invariant forall k int :: 1 <= k && k < ncalls() ==> goesOn(k)
+// C04: the loop body runs in a fresh child of the scope of the loop statement
+//@ callsite (*runInfoStruct).runSingleStmt * [C04] childscope: fresh(runInfo.env) && runInfo.env.parent == old(runInfo.env)
 
 //@ func (*runInfoStruct).runVarStmt
 //@ props C04 C08 C02
@@ -272,6 +324,21 @@ package vm
 //@ requires stmt != nil
 //@ loop 0 invariant actInvE(runInfo) && env == old(runInfo.env) && runInfo.err == nil
 //@ loop 1 invariant actInvE(runInfo) && env == old(runInfo.env) && runInfo.err == nil
+// C08 (and the switch clause of C06): the subject is evaluated first; case expressions are compared with it, by
+// vm.equal, until the first one that is equal; exactly that case's body runs (else the default), and the body's outcome
+// - value, error, break/continue/return signal - is the outcome of the switch statement.
+//@ ensures [C08] passes: ncalls() >= 1 && calleeIs(ncalls()-1, "runSingleStmt") ==> runInfo.err == res(ncalls()-1) && runInfo.rv == res2(ncalls()-1)
+//@ ensures [C08] subject: ncalls() >= 1 && calleeIs(0, "invokeExpr") && arg(0) == stmt.Expr
+//@ ensures [C08] allcases: forall k int :: 0 <= k && k < ncalls() - 1 ==> calleeIs(k, "invokeExpr") && res(k) == nil
+//@ ensures [C08 C06] nomatch: forall k int :: 1 <= k && k < ncalls() - 2 ==> !equalR(res2(k), res2(0))
+//@ ensures [C08 C06] matched: ncalls() >= 3 && calleeIs(ncalls()-1, "runSingleStmt") && equalR(res2(ncalls()-2), res2(0)) ==> (exists c int :: 0 <= c && c < len(stmt.Cases) && arg(ncalls()-1) == as(stmt.Cases[c], "*ast.SwitchCaseStmt").Stmt && (exists j int :: 0 <= j && j < len(as(stmt.Cases[c], "*ast.SwitchCaseStmt").Exprs) && arg(ncalls()-2) == as(stmt.Cases[c], "*ast.SwitchCaseStmt").Exprs[j]))
+//@ ensures [C08 C06] default: calleeIs(ncalls()-1, "runSingleStmt") && (ncalls() == 2 || !equalR(res2(ncalls()-2), res2(0))) ==> arg(ncalls()-1) == stmt.Default
+//@ ensures [C08 C06] taken: ncalls() >= 2 && calleeIs(ncalls()-1, "invokeExpr") ==> res(ncalls()-1) != nil || (!equalR(res2(ncalls()-1), res2(0)) && stmt.Default == nil)
+//@ ensures [C08 C06] takenprev: ncalls() >= 3 && calleeIs(ncalls()-1, "invokeExpr") ==> !equalR(res2(ncalls()-2), res2(0))
+//@ loops invariant ncalls() >= 1 && arg(0) == stmt.Expr && res2(0) == value && (forall k int :: 0 <= k && k < ncalls() ==> calleeIs(k, "invokeExpr") && res(k) == nil) && (forall k int :: 1 <= k && k < ncalls() ==> !equalR(res2(k), value))
+// C04: the subject, the case expressions and the chosen body run in one fresh child of the statement's scope
+//@ callsite (*runInfoStruct).runSingleStmt * [C04] childscope: fresh(runInfo.env) && runInfo.env.parent == old(runInfo.env)
+//@ callsite (*runInfoStruct).invokeExpr * [C04] childscope: fresh(runInfo.env) && runInfo.env.parent == old(runInfo.env)
 
 //@ func (*runInfoStruct).runDeferStmt
 //@ props C04 C08 C02 C09
@@ -314,9 +381,20 @@ package vm
 //@ loop 0 invariant b: (old(runInfo.err) != nil && old(runInfo.err) != ErrReturn ==> err == old(runInfo.err)) && runInfo.defers == nil
 //@ loop 0 invariant c: (fired && !old(fired) ==> err != nil && err != ErrReturn)
 //@ loop 0 invariant d: polls >= old(polls)
+// C09 over the activation trace (one traced call per deferred function run): every registered call runs exactly once,
+// in reverse order of registration; the first error a deferred call raises surfaces exactly when the body did not fail
+//@ ensures [C09] once2: ncalls() == len(old(runInfo.defers))
+//@ ensures [C09] lifo: forall k int :: 0 <= k && k < ncalls() ==> calleeIs(k, "callDeferredFunc") && arg(k) == old(runInfo.defers[len(runInfo.defers)-1-k].fn)
+//@ ensures [C09] quiet: (forall k int :: 0 <= k && k < ncalls() ==> res(k) == nil) ==> runInfo.err == old(runInfo.err)
+//@ ensures [C09] defererr: (old(runInfo.err) == nil || old(runInfo.err) == ErrReturn) ==> (forall k int :: 0 <= k && k < ncalls() && res(k) != nil && (forall j int :: 0 <= j && j < k ==> res(j) == nil) ==> runInfo.err == res(k))
+//@ loop 0 invariant e: ncalls() == len(defers) - 1 - i && i >= -1 && i < len(defers) && defers == old(runInfo.defers) && (forall k int :: 0 <= k && k < ncalls() ==> calleeIs(k, "callDeferredFunc") && arg(k) == old(runInfo.defers[len(runInfo.defers)-1-k].fn))
+//@ loop 0 invariant f: (forall k int :: 0 <= k && k < ncalls() ==> notSentinel(res(k)))
+//@ loop 0 invariant g: (forall k int :: 0 <= k && k < ncalls() ==> res(k) == nil) ==> err == old(runInfo.err)
+//@ loop 0 invariant h: (old(runInfo.err) == nil || old(runInfo.err) == ErrReturn) ==> (forall k int :: 0 <= k && k < ncalls() && res(k) != nil && (forall j int :: 0 <= j && j < k ==> res(j) == nil) ==> err == res(k))
 
 //@ func (*runInfoStruct).callDeferredFunc
 //@ props C04 C09 C02
+//@ traced deferred.fn -> runInfo.err
 //@ requires [C13] nolocks: nolocks()
 //@ ensures [C02] firederr: fired && !old(fired) ==> realErr(runInfo.err)
 //@ ensures [C02] pollsmono: polls >= old(polls)
@@ -350,7 +428,10 @@ package vm
 //@ requires ctx != nil
 //@ requires [C13] nolocks: nolocks()
 //@ requires [C01] arity: len(args) >= len(funcExpr.Params)
-//@ loop 0 invariant runInfo.env != nil && polls == old(polls) && fired == old(fired)
+// C04: every invocation runs the body in a FRESH child of the captured (defining) scope and binds the parameters there
+//@ callsite (*runInfoStruct).runSingleStmt * [C04] freshscope: fresh(arg0.env) && arg0.env.parent == envFunc && arg0.stmt == funcExpr.Stmt && arg0.options == options && arg0.ctx == ctx
+//@ callsite (*Env).DefineValue * [C04] paramscope: fresh(arg0) && arg0.parent == envFunc && arg2 == args[i]
+//@ loop 0 invariant runInfo.env != nil && polls == old(polls) && fired == old(fired) && fresh(runInfo.env) && runInfo.env.parent == envFunc
 
 // ---------------------------------------------------------------------------
 // public entry points
